@@ -151,6 +151,9 @@ func fmtCompatFormat(f string) bool {
 
 func genQ04(w *bufio.Writer, rng *prng, n int, depth int) {
 	q := &qw{w}
+	setRegistry(false)
+	setHook(nil)
+	genNativeQ04(q, w, rng, n/4+1)
 	for i := 0; i < n; i++ {
 		g := &vgen{rng: rng, hostile: true, validUtf8: true, fmtCompat: true}
 		c := &pcase{reg: rng.coin(1, 4)}
@@ -840,6 +843,10 @@ func genQ08(w *bufio.Writer, rng *prng, n int, depth int) {
 		q.eq("C08", "[]interface{}{r1,r2}", lit(string(redact.Sprint([]interface{}{R1, R2}))), lit("["+r1+" "+r2+"]"), info)
 		q.eq("C08", "struct fields (exported and not)", lit(string(redact.Sprintf("%v", St2{A: R1, b: R2.ToBytes()}))), lit("{"+r1+" "+r2+"}"), info)
 		q.eq("C08", "map value", lit(string(redact.Sprintf("%v", map[int]interface{}{1: R1}))), lit("map[‹1›:"+r1+"]"), info)
+		q.eq("C08", "Safe(r): a wrapper holding a redactable", lit(string(redact.Sprint(redact.Safe(R1)))), lit(r1), info)
+		q.eq("C08", "Safe([]interface{}{r1,r2})", lit(string(redact.Sprint(redact.Safe([]interface{}{R1, R2.ToBytes()})))), lit("["+r1+" "+r2+"]"), info)
+		q.eq("C08", "Safe(struct) with redactable fields", lit(string(redact.Sprintf("%v", redact.Safe(St2{A: R1, b: R2})))), lit("{"+r1+" "+r2+"}"), info)
+		q.eq("C08", "redactable printed by a SafeFormatter under Safe()", lit(string(redact.Sprint(redact.Safe(sfFunc(func(p redact.SafePrinter) { p.Printf("%s", R1) }))))), lit(r1), info)
 		q.eq("C08", "pointer to struct", lit(string(redact.Sprintf("%+v", &St2{A: R1}))), lit("&{A:"+r1+" b:<nil>}"), info)
 		// Sprintf concatenates
 		gl := &vgen{rng: rng, hostile: true, validUtf8: true}
@@ -1075,6 +1082,16 @@ func genQ16(w *bufio.Writer, rng *prng, n int, depth int) {
 				c.args = append(c.args, g.val(depth))
 			}
 		}
+		if rng.coin(1, 8) {
+			// one pre-redactable operand, possibly ending inside a UTF-8 sequence / a marker:
+			// every route must finalize it the same way
+			kind := rng.pick([]string{"rs", "rb"})
+			tail := rng.pick([]string{"", "", "\xe2\x80", "\xff", "\xc3", "\xe2", "x\xf0\x9f"})
+			c.args = []*Val{{K: kind, S: g.redactable() + tail}}
+			if isF {
+				c.format = rng.pick([]string{"%v", "%s", "a%vb", "%10v", "%q", "%x"})
+			}
+		}
 		info := caseInfo(c)
 		route := func(name string, f func(args []interface{}) string) (string, bool) {
 			args := prepCase(c)
@@ -1305,6 +1322,56 @@ func genQ11(w *bufio.Writer, rng *prng, n int, depth int) {
 				_ = redact.Sprintfn(func(p redact.SafePrinter) { pre(p); p.SafeByte(ifaces.SafeByte(b)); p.UnsafeByte(b) })
 			})
 			q.truth("C11", "byte writers panicked", !p1 && !p2, info)
+		}
+	}
+	// a panic that escaped from a nested printer (payload whose own printing panics) must not
+	// leave anything on the recycled printers: the next ordinary method panic is still contained
+	simple := func() string { return string(redact.Sprint(churnStringer{}, 1.5)) }
+	baseline := simple()
+	dbl := anyStringer{func() string { panic(anyStringer{func() string { panic("inner") }}) }}
+	histories := []func(){
+		func() { _ = redact.Sprint(sfFunc(func(p redact.SafePrinter) { p.Print(dbl) })) },
+		func() { _ = redact.Sprintf("%v|%d", sfFunc(func(p redact.SafePrinter) { p.Printf("%s %d", dbl, 3) }), 4) },
+		func() {
+			_ = redact.Sprint([]interface{}{sfFunc(func(p redact.SafePrinter) { p.SafeString("a"); p.Print(1, dbl) })})
+		},
+		func() { _ = redact.Sprintfn(func(p redact.SafePrinter) { p.Print(sfFunc(func(p2 redact.SafePrinter) { p2.Print(dbl) })) }) },
+	}
+	for hi, h := range histories {
+		for round := 0; round < 3; round++ {
+			_, _ = try(h)
+			for k := 0; k < 3; k++ {
+				var out string
+				p, pv := try(func() { out = simple() })
+				info := fmt.Sprintf("history %d round %d probe %d panic value %v", hi, round, k, pv)
+				q.truth("C11", "an ordinary user-method panic escaped from a call that follows a nested double panic", !p, info)
+				if !p {
+					q.eq("C11", "the panic report after a nested double panic", lit(out), lit(baseline), info)
+				}
+			}
+		}
+	}
+	// integers whose zero padding / precision exceeds the formatter's scratch array
+	for _, verb := range "dxXobO" {
+		for _, fl := range []string{"0", "+0", "0#", "0 ", "", "#"} {
+			for _, wd := range []string{"60", "64", "65", "66", "67", "68", "69", "70", "71", "72", "100", "200", ".64", ".66", ".68", ".69", ".70", "70.70", "3.100"} {
+				if !rng.coin(1, 3) {
+					continue
+				}
+				for _, x := range []int64{-1, 7, 1<<63 - 1, -1 << 63} {
+					f := "[%" + fl + wd + string(verb) + "]"
+					c := &pcase{entry: "sprintf", format: f, args: []*Val{{K: "i", GoT: "int64", I: x}}}
+					args := prepCase(c)
+					var out string
+					p, pv := try(func() { out = string(redact.Sprintf(f, args...)) })
+					info := fmt.Sprintf("format %q operand %d panic value %v", f, x, pv)
+					q.truth("C11", "a wide integer directive panicked", !p, info)
+					if !p {
+						q.eq("C04", "StripMarkers(redact output) = fmt output", fn("strip", lit(out)), lit(fmt.Sprintf(f, x)), info)
+						fmt.Fprintln(w, runPCase(c))
+					}
+				}
+			}
 		}
 	}
 	// JoinTo with operands that are not slices
